@@ -378,3 +378,40 @@ ADDED5 = {
 _GEN5 = "A container defined in a class body is mutated through self only after a dominating fresh instance copy."
 for _p in CHECKS:
     CHECKS[_p]["text"] = (CHECKS[_p]["text"] + " " + ADDED5.get(_p, "")).strip() + " " + _GEN5
+
+# round 6
+ADDED6 = {
+    "C01": "The position of a key is looked up in one sequence per container; the JSON decoder gets the caller's text, never a "
+           "rewritten one (def-use provenance at all 10 decoding sites).",
+    "C02": "An extensions key is looked up in the registry of its own category (clause of C19 as a necessary condition).",
+    "C03": "Every hash sanity expression accepts the algorithm's whole value language (automata inclusion per table entry); "
+           "selectors have one judge (who-may-raise InvalidSelectorError).",
+    "C04": "Every slot the specification model gives a customisation-detecting kind (hashes, extensions, references, embedded "
+           "objects, members) has that kind in the code.",
+    "C05": "Every name given through custom_properties reaches the unmodifiable test unfiltered; a supplied modified time is "
+           "truncated by its slot before it is compared; the allow_custom option key is written into new content only for library objects.",
+    "C06": "Containers inside contributing values are hashed whole (every item, no condition); a failure of the id generator is "
+           "an error, never a silent fall-back to a random id.",
+    "C07": "The options marking_ref / lang each govern one kind of marking (truth table over the atoms of every mixed condition); "
+           "a marking operation on a dictionary adds no key of its own.",
+    "C08": "InvalidSelectorError is raised nowhere outside the selector walk.",
+    "C09": "No qualifier is distributed over the operands of an expression unless REPEATS is excluded; float constants are finite.",
+    "C10": "A parenthesised group always becomes the grouping node; a set literal keeps every member; parse-tree text is never "
+           "escaped again in the visitor; float constants are finite.",
+    "C11": "The versioned / unversioned layout of a type directory is read from the directory on every query.",
+    "C12": "The same layout clause; '.' and '..' are no entry names for the type / id shortcut.",
+    "C13": "Attributes that keep a caller's argument by reference (102 of them) are written by no method of the class family.",
+    "C14": "A helper called where a version is in force does not ask the content for its version again.",
+    "C15": "The one reader hands strptime the caller's text and keeps the instant it returns (no rewriting before, no arithmetic after).",
+    "C17": "Raw content is stored by the filesystem sink only after parse() of the whole input; the memory family compares before "
+           "it writes; the 35 constraint methods take no piece beyond the first of a split and call no object method on arbitrary "
+           "extension members without a guard.",
+    "C18": "related_to() asks about every related id (no shortcut in front of the per-id query); the newest answer of a composite is "
+           "chosen by instants, never by formatted text.",
+    "C19": "The parse entry points ask the content for its version only when none was named (clause of C14 as a necessary condition).",
+    "C20": "Both readers follow exception-builder helpers of the module (a bare call of one raises nothing).",
+}
+_GEN6 = ("An option of a call (a parameter with a True / False default) is never rebound inside a loop; a class attribute is not "
+         "assigned from a method through any alias of the class (self.__class__, type(self)).")
+for _p in CHECKS:
+    CHECKS[_p]["text"] = (CHECKS[_p]["text"] + " " + ADDED6.get(_p, "")).strip() + " " + _GEN6
